@@ -344,7 +344,7 @@ def run(ctx):
     cs = cases(ctx.quick)
     # thorough: bound 3 in full for the 2-task histories, bound 3 under an execution cap (reported) for 3 tasks,
     # bound 2 for 4 tasks; quick: bound 2 everywhere, complete
-    jobs = [(c, bound if c["tasks"] < 4 else 2, 400000 if ctx.quick or c["tasks"] <= 2 else 40000) for c in cs]
+    jobs = [(c, bound if c["tasks"] < 4 else 2, 400000 if ctx.quick else 60000 if c["tasks"] <= 2 else 6000) for c in cs]
     for part in ctx.pmap(_job, jobs):
         ctx.merge(part)
     ctx.notes["deviation_bound"] = bound
